@@ -99,6 +99,27 @@ def main():
                              'equal': same(sim.results['effective_error'], sim2.results['effective_error'])
                              and list(map(bool, sim.results['success'])) == list(map(bool, sim2.results['success']))
                              and list(map(bool, sim.results['codespace'])) == list(map(bool, sim2.results['codespace']))})
+        # the same with the legacy generators a seed can be given through (RandomState object; the seeded np.random module)
+        for kind in ('RandomState', 'np.random module'):
+            def mkrng(kind=kind):
+                if kind == 'RandomState':
+                    return np.random.RandomState(sd % 2 ** 32)
+                np.random.seed(sd % 2 ** 32)
+                return np.random
+            try:
+                with contextlib.redirect_stdout(io.StringIO()):
+                    sa = DirectSimulation(code, em, mk(code, em, p), p, verbose=False, rng=mkrng())
+                    sa.run(min(ntr, 12))
+                    sb = DirectSimulation(code, em, mk(code, em, p), p, verbose=False, rng=mkrng())
+                    sb.run(5)
+                    sb.run(min(ntr, 12) - 5)
+                eq = (same(sa.results['effective_error'], sb.results['effective_error'])
+                      and list(map(bool, sa.results['success'])) == list(map(bool, sb.results['success']))
+                      and list(map(bool, sa.results['codespace'])) == list(map(bool, sb.results['codespace'])))
+                res['repro'].append({'tag': tag, 'decoder': dname + ' / rng given as ' + kind, 'seed': sd, 'equal': eq})
+            except Exception as ex:
+                res['repro'].append({'tag': tag, 'decoder': dname + ' / rng given as ' + kind, 'seed': sd, 'equal': False,
+                                     'error': '%s: %s' % (type(ex).__name__, ex)})
     # calibration: exact failure probability by enumeration of all 4^n errors vs seeded frequency.
     # ONE error-model object per noise setting is reused across several codes (as a batch run does).
     ncal = 3000 if tier == 'quick' else 20000
